@@ -50,8 +50,8 @@ def call (c : Cfg) (s : St) (o : Outcome) : St × CallOut :=
         -- `if not background: await task` – the task's exception propagates out of `await task` (D19);
         -- its `finally` deletes the lock either way
         match o with
-        | .ok => ({ s with t := (save c t1 id).remove kAux, nexec := id + 1 }, ⟨.stored stamp id0, true, false⟩)
-        | _ => ({ s with t := t1.remove kAux, nexec := id + 1 }, ⟨.raised o, true, false⟩)
+        | .ok => ({ s with t := (save c t1 id).remove kAux, nexec := id + 1 }, ⟨.stored stamp id0, true, true⟩)
+        | _ => ({ s with t := t1.remove kAux, nexec := id + 1 }, ⟨.raised o, true, true⟩)
 
 /-- a background `_get_result_for_early(..., unlock=True)` completes: store on success, then
 `finally: asyncio.create_task(backend.delete(key + ":lock"))` — whoever holds the lock now -/
